@@ -19,6 +19,29 @@ def make_replay(prop, scenario):
         return RP.write_and_run(prop, job.name + "." + ob["name"], hdr, ['"TasmanianAddons.hpp"'], body, "  { int rc_ = main_replay(); if (rc_) return rc_; }", lib="sg", timeout=300)
     return rp
 
+REPLAY_PAR = r'''
+/* On the real library: a parallel construction that ends on the budget with more than 1000 loaded points (completed samples are then loaded in batches):
+ * every sample the model computed must be loaded when constructSurrogate returns. */
+int main_replay(){
+  int bad = 0;
+  for (int threads = 1; threads <= 3; threads += 2) {
+    TasGrid::TasmanianSparseGrid grid = TasGrid::makeLocalPolynomialGrid(2, 1, 1, 1, TasGrid::rule_localp);
+    std::atomic<int> count(0);
+    auto model = [&](std::vector<double> const &x, std::vector<double> &y, size_t)->void{ y.resize(x.size() / 2); for (size_t i = 0; i < y.size(); i++) { y[i] = std::exp(-x[2*i] * x[2*i] - 0.5 * x[2*i+1]); count++; } };
+    TasGrid::constructSurrogate<TasGrid::mode_parallel, TasGrid::no_initial_guess>(model, 1200, threads, 1, grid, 1.E-12, TasGrid::refine_classic);
+    if (grid.getNumLoaded() != count.load()) { std::printf("%d threads: the model computed %d samples, %d are loaded\n", threads, count.load(), grid.getNumLoaded()); bad++; }
+    if (count.load() > 1200) { std::printf("%d threads: %d samples computed, budget 1200\n", threads, count.load()); bad++; }
+  }
+  __CPROVER_assert(bad == 0, "C18 every value returned by the model is loaded, within the budget (parallel mode)");
+  return 0;
+}
+'''
+def replay_parallel(prop):
+    def rp(job, ob, vals, wd):
+        hdr = "Replay through the public API of the real library.\nproperty %s job %s\nobligation %s: %s\nat %s" % (prop, job.name, ob["name"], ob["description"], ob["location"])
+        return RP.write_and_run(prop, job.name + "." + ob["name"], hdr, ['"TasmanianAddons.hpp"', '<cmath>', '<atomic>'], REPLAY_PAR, "  main_replay();", lib="sg", timeout=120)
+    return rp
+
 def jobs(tier, seed, prop):
     R = X.Rules()
     blocks, info = surrogate.emit(R)
@@ -40,9 +63,22 @@ def jobs(tier, seed, prop):
     cfb = ContractFile("contracts/budget.c")
     Rb = X.Rules()
     bt, binfo = surrogate.emit_budget(Rb, cfb.loops()["sequential_loop"][0])
-    out.append(Job("budget.sequential", '#include "tsg_shim.h"\nint tsg_exc;\n#line 1 "/verif/contracts/budget.c"\n' + cfb.text(("text",)) + bt + cfb.text(("harness",)), "h_budget",
+    out.append(Job("budget.sequential", '#include "tsg_shim.h"\nint tsg_exc;\n#line 1 "/verif/contracts/budget.c"\n' + cfb.text(("text",)) + bt + cfb.text(("harness",), ["h_budget"]), "h_budget",
                    loop_contracts=True, timeout=300, functions=["%s:%d %s" % (f["file"], f["line"], f["name"]) for f in binfo["functions"]], info=binfo,
                    assumed=["CandidateManager::next(b) returns at most b points (F16, proved in candman.next)", "complete.load / complete.add / candidates(grid) act on the counts as stated in contracts/budget.c",
                             "the recovered state itself is within the budget"],
                    label="constructCommon budget accounting (sequential mode): total samples <= max_num_points, recovered samples counted, candidates refreshed only after loading"))
+    # the parallel half of G5: main-thread bookkeeping under every completion order of the workers
+    Rp = X.Rules()
+    pt, pinfo = surrogate.emit_parallel(Rp)
+    t2 = [t_ for k, a, t_ in cfb.sections if k == "text2"][0]
+    nj, nb = (2, 2) if tier == "quick" else (2, 3)
+    out.append(Job("budget.parallel", '#include "tsg_shim.h"\nint tsg_exc;\n#define TSG_NJ %d\n#define TSG_BUDGET %d\n#line 1 "/verif/contracts/budget.c"\n' % (nj, nb) + cfb.text(("text",)) + t2 + bt + pt + cfb.text(("harness",), ["h_budget_parallel"]),
+                   "h_budget_parallel", unwind=nb + nj + 3, timeout=600 if tier == "quick" else 2400, backends=[[], ["--sat-solver", "cadical"]],
+                   functions=["%s:%d %s" % (f["file"], f["line"], f["name"]) for f in pinfo["functions"]], info=pinfo, replay=replay_parallel(prop),
+                   bounded="job slots <= %d, at most %d new samples (full unwinding with unwinding assertions)" % (nj, nb),
+                   assumed=["R11t: the worker lambda is replaced by its effect (model call on the batch, done flag, counter) inside the wait; at least one computing worker finishes per wait",
+                            "mutual exclusion, wake-ups and the memory model are NOT decided (schedule properties): only the main thread's bookkeeping under every completion order",
+                            "CandidateManager::next / complete / operator= act on the counts as in contracts/budget.c"],
+                   label="constructCommon budget accounting (parallel mode, main thread): budget, flush of completed jobs, shutdown of every worker"))
     return out
